@@ -115,11 +115,10 @@ def own_nodes(fnode, include_lambdas=True):
     while stack:
         n = stack.pop()
         yield n
-        for c in ast.iter_child_nodes(n):
-            if isinstance(c, (ast.FunctionDef, ast.AsyncFunctionDef, ast.ClassDef)):
-                # the def statement itself is visible, its body is not
-                yield c
-                continue
+        if isinstance(n, (ast.FunctionDef, ast.AsyncFunctionDef, ast.ClassDef)):
+            # the def statement itself is visible, its body is not
+            continue
+        for c in reversed(list(ast.iter_child_nodes(n))):
             if not include_lambdas and isinstance(c, ast.Lambda):
                 continue
             stack.append(c)
